@@ -1,11 +1,14 @@
 """C11 – interrupted and failing stores: case generation."""
 import random
 from vf import Case
+from gen import cloops
 
 ID = "C11"
 DRIVER = "drv_persist"
 KEEP_PREFIX = 1        # ps.init
 HARNESS = "h_persist"
+GEN = [cloops.pst_gen]              # tie A: trivialsum and the layout helpers of persistent-storage.c, translated from clang's AST
+tie_modules = cloops.pst_tie_modules
 QUICK_LEVEL = "thorough"      # the larger case set costs only seconds
 THOROUGH_SEEDS = 4
 RULE = ("the C10 configuration grid (sizes x placements x algorithms x buffer sizes); for every full and partial store: the store is cut at every "
